@@ -108,7 +108,8 @@ PROPS = {
                 "Result().Outcome == Draw; fifth occurrence => reason five-fold unless another rule holds; Draw => some rule has fired "
                 "in this game; NoProgress() == oracle clock; no legal move => AdjudicateNoLegalMoves() = checkmate iff in check. "
                 "Non-trivial = distinct histories in which a rule fires, is one step from firing (occurrence count 2, clock >= 95), "
-                "ends in mate/stalemate, or leaves two opposite-coloured bishops; evaluations = histories.",
+                "ends in mate/stalemate, or leaves two opposite-coloured bishops; evaluations = histories. "
+                "One third of the games have a spectator that asks every read-only question the board and position offer (check, mate, legal moves, hash, last move, ...) after every k-th ply; questions must not change the adjudication (label spectated-repetition-in-check counts repetitions of positions with the mover in check under a spectator).",
         "assumptions": COMMON_ASSUMPTIONS + ["a draw flag that stays set on later moves of the same game is allowed (the property only forbids a draw in a game where no rule has fired)"],
         "level_text": "Exploration: ~12k histories (about 700k pushes) per quick run judged after every move against the oracle's "
                       "game-level rules; generator labels show how often each rule and each awkward sub-case (first occurrence at "
@@ -154,7 +155,8 @@ PROPS = {
                 "Engine.Position() must be the standard FEN of the oracle game (clock = half-moves since last pawn move or capture, "
                 "move number +1 after each Black move, both restored by take-back). Non-trivial = distinct positions with an e.p. "
                 "square, partial rights, Black to move or unusual clocks (roundtrip); programs containing castling, capture + "
-                "take-back, or a Black-to-move set-up (engine). evaluations = cases.",
+                "take-back, or a Black-to-move set-up (engine). evaluations = cases. "
+                "C14/concurrent: one goroutine plays a generated line forward and takes it back 20-120 times while 1-4 goroutines call Engine.Position(); every FEN reported must be the standard FEN of one of the states of that game (the engine serialises its methods).",
         "assumptions": COMMON_ASSUMPTIONS + ["canonical FEN = the oracle's encoder (castling letters KQkq in that order, '-' when empty)"],
         "level_text": "Exploration: 40k generated positions with free clocks through both round-trips, and 8k engine programs "
                       "(~300k operations) compared with an independently maintained standard FEN after every step.",
@@ -178,7 +180,8 @@ PROPS = {
                 "64 squares x 2 colours, IsChecked, IsCheckMate, eval.FindCapture for every square and side (set of attackers with "
                 "kind and colour), eval.FindPins against king and queen (set of attacker/pinned/target triples) vs their geometric "
                 "definitions. Non-trivial: every (piece, square, line occupancy) of the table part is a distinct case by construction; "
-                "derived = distinct positions with a check, a pin or a multiply-attacked square.",
+                "derived = distinct positions with a check, a pin or a multiply-attacked square. "
+                "C06/derived also asks IsAttackedBy / IsDefendedBy with four position-derived lists of piece kinds in shuffled order per position (all 64 squares, both colours). C06/parallel: 2-8 goroutines evaluate capture sets, pins, piece squares and legal moves of different positions at the same time; each must equal the definition (the queries are pure).",
         "assumptions": COMMON_ASSUMPTIONS + ["pins are judged for targets king and queen (the kinds the property names)"],
         "level_text": "The finite table part is enumerated completely on every run (about 1.6M distinct line occupancies, ~6M "
                       "lookups, seconds); the derived queries are explored on ~16k generated positions per quick run against "
@@ -352,7 +355,8 @@ PROPS = {
                 "of the cases are ungated with a real-time delay before Halt (increasing subsequence required instead of "
                 "consecutive). C15/timecontrol: TimeControl.Limits over clocks 0..24 h, moves-to-go in {-1,0,1,2,3,10,40,10000}, both "
                 "colours: 0 <= soft <= hard <= time left. Non-trivial: every iterative case (labelled by how it ended: limit / mate / "
-                "halt / halt-ungated); time-control cases with moves-to-go != 0 or < 1 s left. evaluations = cases.",
+                "halt / halt-ungated); time-control cases with moves-to-go != 0 or < 1 s left. evaluations = cases. "
+                "C15/again: second and later analyses of an engine with Hash 0-2 MB, gated iteration by iteration: after a completed analysis of depth D (and 0-2 moves of its variation played) an analysis with limit L searches and reports depth 1, 2, ... in order and ends by itself exactly at L (or at a forced mate it reports itself); non-trivial = the first analysis reached depth >= 2.",
         "assumptions": COMMON_ASSUMPTIONS + ["node counts are not compared (the property names score and PV)", "liveness is judged with a 30 s grace period"],
         "level_text": "Exploration with a harness-owned schedule: ~3k analyses per quick run, every reported depth compared with "
                       "a direct search and the stop/halt rules checked at generated halt points; 40k time-control parameter sets.",
@@ -403,7 +407,8 @@ PROPS = {
                 "each (hidden repetition history) and judging results with the C05 oracle. A driver that shuts down or stops "
                 "answering isready on a valid command is a violation. Non-trivial = distinct scripts of >= 2 commands in which at "
                 "least one command textually continues the previous one (the driver's continuation shortcut is taken). "
-                "evaluations = scripts.",
+                "evaluations = scripts. "
+                "Asides: setoption (Hash, Noise, Depth, OwnBook, Ponder, unknown names, no arguments), debug, register, stop and unknown words are sent between position commands; the engine's game must stay the one the most recent position command describes (isready is interleaved after every command anyway).",
         "assumptions": COMMON_ASSUMPTIONS + ["liveness judged with a 20 s grace period after a protocol barrier"],
         "level_text": "Exploration: ~5k command scripts per quick run, with a model-based oracle (the game the last command "
                       "describes) and a metamorphic one (incrementally extended engine vs fresh set-up of the same command).",
